@@ -109,6 +109,30 @@ def build_extra(mod, tree, src):
               and isinstance(n.args[1], ast.Constant)]
         out.append('Definition do_build_getattr_names : list (list Z) :=\n  %s.\n' % _zll(ga))
         out.append('Definition do_build_skeleton : list (list Z) :=\n  %s.\n' % _zll(_skeleton(f, KEEP_BUILD)))
+        # the args.<attr> reads (strict: AttributeError when the Namespace lacks them) inside the branch taken for
+        # --lua-format and inside the branch taken for --lua-minify
+        def _branch(flag):
+            for n in nodes:
+                if isinstance(n, ast.If) and isinstance(n.test, ast.Call) and isinstance(n.test.func, ast.Name) \
+                        and n.test.func.id == 'getattr' and len(n.test.args) >= 2 \
+                        and isinstance(n.test.args[1], ast.Constant) and n.test.args[1].value == flag:
+                    return n
+            return None
+
+        def _strict_attrs(ifnode):
+            res = []
+            for st in ifnode.body:
+                for n in ast.walk(st):
+                    if isinstance(n, ast.Attribute) and isinstance(n.value, ast.Name) and n.value.id == 'args' \
+                            and n.attr not in res:
+                        res.append(n.attr)
+            return res
+        bf, bm = _branch('lua_format'), _branch('lua_minify')
+        if bf is None or bm is None:
+            out.append(_fail('do_build_format_attrs', 'writer_branches'))
+        else:
+            out.append('Definition do_build_format_attrs : list (list Z) :=\n  %s.\n' % _zll(_strict_attrs(bf)))
+            out.append('Definition do_build_minify_attrs : list (list Z) :=\n  %s.\n' % _zll(_strict_attrs(bm)))
         # is lua_writer_cls assigned a tuple in the lua_format branch (observation O1)?
         tup = [n for n in nodes if isinstance(n, ast.Assign) and len(n.targets) == 1
                and isinstance(n.targets[0], ast.Name) and n.targets[0].id == 'lua_writer_cls'
